@@ -10,6 +10,7 @@ import (
 	"time"
 
 	sdkmath "cosmossdk.io/math"
+	storetypes "cosmossdk.io/store/types"
 
 	sdk "github.com/cosmos/cosmos-sdk/types"
 	authtypes "github.com/cosmos/cosmos-sdk/x/auth/types"
@@ -20,6 +21,7 @@ import (
 	"github.com/bandprotocol/chain/v3/x/bandtss"
 	bandtsskeeper "github.com/bandprotocol/chain/v3/x/bandtss/keeper"
 	bandtsstypes "github.com/bandprotocol/chain/v3/x/bandtss/types"
+	oracletypes "github.com/bandprotocol/chain/v3/x/oracle/types"
 	tssmod "github.com/bandprotocol/chain/v3/x/tss"
 	tsskeeper "github.com/bandprotocol/chain/v3/x/tss/keeper"
 	tsstypes "github.com/bandprotocol/chain/v3/x/tss/types"
@@ -44,7 +46,8 @@ type caseT struct {
 	height int64
 	now    int64
 	fee    []int64
-	faults bool // inject malformed nonce pairs in about a third of the cases
+	faults bool   // inject malformed nonce pairs in about a third of the cases
+	orid   uint64 // oracle request ids used by oracleSigning
 }
 
 func coinsOf(amt []int64) sdk.Coins {
@@ -224,6 +227,44 @@ func (c *caseT) request() {
 	c.emit(fx.M{"op": "request", "sender": sender, "authority": authority, "feeLimit": limit, "height": c.height}, e)
 }
 
+// oracleSigning: the signing source "oracle result".  A resolved data request that asked for a threshold signature is
+// passed to Keeper.ResolveSuccess, which creates the signing inside safeCreateSigning (cache context + panic recovery).
+// A finite gas meter interrupts the creation at an arbitrary store access (an out-of-gas panic): before or after the
+// fee transfer, after some members' nonces were dequeued, before the attempt is stored.  Whatever happens, the
+// creation must have happened completely or not at all.
+func (c *caseT) oracleSigning() {
+	r := c.r
+	sender := r.Intn(len(c.reqs))
+	limit := make([]int64, len(denoms))
+	for i := range denoms {
+		limit[i] = c.fee[i]*int64(c.g.T) + int64(r.PickInt(0, 0, 1, 50))
+		if r.Chance(1, 8) && limit[i] > 0 {
+			limit[i]--
+		}
+	}
+	c.orid++
+	rid := oracletypes.RequestID(1000 + c.orid)
+	requester := c.reqs[sender].Address.String()
+	before := c.app.TSSKeeper.GetSigningCount(c.ctx)
+	c.app.OracleKeeper.SetRequest(c.ctx, rid, oracletypes.NewRequest(1, []byte("calldata"), nil, 1, c.height, time.Unix(0, c.now).UTC(), "client", nil, nil, 0,
+		oracletypes.ENCODER_PROTO, requester, coinsOf(limit)))
+	gas := uint64(0) // 0: the infinite meter of the end-blocker
+	ctx := c.ctx
+	if r.Chance(2, 3) {
+		gas = uint64(r.Range(10, 400)) * 250
+		ctx = c.ctx.WithGasMeter(storetypes.NewGasMeter(gas))
+	}
+	_ = fx.Try(func() error {
+		c.app.OracleKeeper.ResolveSuccess(ctx, rid, requester, coinsOf(limit), []byte("result"), 0, oracletypes.ENCODER_PROTO)
+		return nil
+	})
+	e := "not-created"
+	if c.app.TSSKeeper.GetSigningCount(c.ctx) > before {
+		e = ""
+	}
+	c.emit(fx.M{"op": "oracleSigning", "sender": sender, "feeLimit": limit, "height": c.height, "gas": gas}, e)
+}
+
 func (c *caseT) submit() {
 	r := c.r
 	tk := c.app.TSSKeeper
@@ -314,6 +355,33 @@ func (c *caseT) setParams(emit bool) (period, maxAtt, maxDE uint64) {
 }
 
 // RunCase generates one case.
+// reimport: export the module's genesis and initialise a branch of the store from it (what a chain upgrade by
+// export/import does); the branch is then observed like the state itself — nothing the model tracks may differ, in
+// particular every member's nonce queue holds the same pairs in the same order
+func (c *caseT) reimport() {
+	// (InitGenesis refuses a queue longer than the CURRENT MaxDESize, which a parameter change can leave behind: such
+	// states are not re-imported here — see DESIGN §9.4, observation on MaxDESize)
+	max := c.app.TSSKeeper.GetParams(c.ctx).MaxDESize
+	for id := 1; id <= int(c.g.N); id++ {
+		q := c.app.TSSKeeper.GetDEQueue(c.ctx, c.g.Addr(id))
+		if q.Tail-q.Head > max {
+			return
+		}
+	}
+	cctx, _ := c.ctx.CacheContext()
+	saved := c.ctx
+	e := fx.Try(func() error {
+		g := c.app.TSSKeeper.ExportGenesis(cctx)
+		c.app.TSSKeeper.InitGenesis(cctx, *g)
+		return nil
+	})
+	c.ctx = cctx
+	out := c.dump()
+	c.ctx = saved
+	out["err"] = e
+	c.tr.Op(fx.M{"op": "reimport", "out": out})
+}
+
 func RunCase(app *fx.App, tr *fx.Trace, r *fx.Rng) {
 	ctx, _ := app.Ctx.CacheContext()
 	c := &caseT{app: app, ctx: ctx, tr: tr, r: r, tms: tsskeeper.NewMsgServerImpl(app.TSSKeeper), bms: bandtsskeeper.NewMsgServerImpl(app.BandtssKeeper),
@@ -378,8 +446,10 @@ func RunCase(app *fx.App, tr *fx.Trace, r *fx.Rng) {
 			c.submitDE()
 		case x < 7:
 			c.resetDE()
-		case x < 14:
+		case x < 12:
 			c.request()
+		case x < 14:
+			c.oracleSigning()
 		case x < 27:
 			c.submit()
 		case x < 36:
@@ -389,9 +459,12 @@ func RunCase(app *fx.App, tr *fx.Trace, r *fx.Rng) {
 		default:
 			c.setParams(true)
 		}
+		if r.Chance(1, 20) {
+			c.reimport()
+		}
 	}
+	c.reimport()
 	for i := 0; i < 4; i++ {
 		c.endBlock()
 	}
 }
-
